@@ -445,7 +445,7 @@ func runC19(c C19Case, ev *Evid) (fs []Finding) {
 	return nil
 }
 
-var durBoundaryNumerals = []string{"0", "1", "2", "59", "60", "61", "2147483647", "2147483648", "4294967296", "4294967295", "35791394", "35791395", "596523", "596524", "24855", "24856", "3550", "3551", "68", "69", "00", "01", "007", "99999999999999999999", "18446744073709551616", "9223372036854775808", "214748364", "214748365", "21474836470"}
+var durBoundaryNumerals = []string{"0", "1", "2", "59", "60", "61", "2147483647", "2147483648", "4294967296", "4294967295", "35791394", "35791395", "596523", "596524", "24855", "24856", "3550", "3551", "68", "69", "00", "01", "007", "99999999999999999999", "18446744073709551616", "9223372036854775808", "214748364", "214748365", "21474836470", "18446744073709551617", "18446744073709551676", "36893488147419103237", "55340232221128654855", "18446744073709555216", "340282366920938463463374607431768211457"}
 
 func genDurString(t *rapid.T) string {
 	switch rapid.IntRange(0, 5).Draw(t, "durStrKind") {
@@ -501,7 +501,23 @@ func genTSString(t *rapid.T) string {
 }
 
 func genListString(t *rapid.T) string {
-	switch rapid.IntRange(0, 5).Draw(t, "listKind") {
+	switch rapid.IntRange(0, 7).Draw(t, "listKind") {
+	case 6:
+		// a single archive whose retention sits at the 31-bit boundary: p points of floor((2^31-1)/p)+{-1,0,1} seconds
+		pts := rapid.Int64Range(1, 8).Draw(t, "points")
+		st := (1<<31-1)/pts + rapid.Int64Range(-1, 1).Draw(t, "delta")
+		return fmt.Sprintf("%ds:%ds", st, st*pts)
+	case 7:
+		// a valid layout with its archives written in another order (a list is a sequence: archive ids index it
+		// as written, so a parser may reject such a string but may not reorder it)
+		l := genLayout(t, defaultLayoutOpts())
+		parts := strings.Split(harnessPrintLayout(t, l), ",")
+		if len(parts) > 1 {
+			i := rapid.IntRange(0, len(parts)-2).Draw(t, "swapAt")
+			j := rapid.IntRange(i+1, len(parts)-1).Draw(t, "swapWith")
+			parts[i], parts[j] = parts[j], parts[i]
+		}
+		return strings.Join(parts, ",")
 	case 0:
 		return rapid.StringMatching(`[0-9smhdwy:,+\-]{0,7}`).Draw(t, "alpha")
 	case 1:
@@ -715,7 +731,7 @@ func exhaustiveC19(ev *Evid) (C19Case, []Finding) {
 func TestC19(t *testing.T) {
 	p := Property[C19Case]{
 		ID:          "C19",
-		Rule:        "quick: rapid-generated durations (unit multiples +-1, near 2^31, random), timestamps (edges + random), valid layouts (small and hour..year scale; also through the -retentions / -x-files-factor / -agg-method / -from flag values), method values -1..10 and names, and strings: boundary numerals x units, random strings over [0-9smhdwy:,+-]{0,7}, signed numerals, overflow boundaries per unit, timestamp strings with one malformed field/zone/separator, retention lists printed by the harness with arbitrary unit choices and then mutated. Oracles: parse(print(x)) == x; printed text evaluated independently (number x unit table, big integers; own days-from-civil calendar) equals x; every accepted string has exactly the independently computed meaning and fits 31 bits; malformed classes are rejected. Non-trivial (quick): durations not a multiple of 60 or within +-1 of a unit multiple or near 2^31; all string cases. thorough adds the exhaustive sub-domains: all 2^31 durations, all 2^32 timestamps, all strings over the alphabet up to length 5 (exhaustive=true refers to those).",
+		Rule:        "quick: rapid-generated durations (unit multiples +-1, near 2^31, random), timestamps (edges + random), valid layouts (small and hour..year scale; also through the -retentions / -x-files-factor / -agg-method / -from flag values), method values -1..10 and names, and strings: boundary numerals x units, random strings over [0-9smhdwy:,+-]{0,7}, signed numerals, overflow boundaries per unit, timestamp strings with one malformed field/zone/separator, retention lists printed by the harness with arbitrary unit choices and then mutated. Oracles: parse(print(x)) == x; printed text evaluated independently (number x unit table, big integers; own days-from-civil calendar) equals x; every accepted string has exactly the independently computed meaning and fits 31 bits; malformed classes are rejected. Lists: single archives at the 31-bit retention boundary (2^31-1 s is valid), and valid lists written in another order (may be rejected, never reordered). Non-trivial (quick): durations not a multiple of 60 or within +-1 of a unit multiple or near 2^31; all string cases. thorough adds the exhaustive sub-domains: all 2^31 durations, all 2^32 timestamps, all strings over the alphabet up to length 5 (exhaustive=true refers to those).",
 		Assumptions: []string{"timestamp strings outside years 1970-2106 are not generated (Z9)", "numerals with redundant leading zeros and fractional seconds: no verdict asserted"},
 		Gen:         genC19,
 		Run:         runC19,
@@ -739,7 +755,9 @@ func TestC19(t *testing.T) {
 					out = append(out, C19Case{Kind: "durstr", Hex: hex.EncodeToString([]byte(str))}, C19Case{Kind: "liststr", Hex: hex.EncodeToString([]byte(str))})
 				}
 			}
-			for _, s := range []string{"", "s", "1", "1ss", "1sm", "+1s", "-1s", "1s:", ":1s", "1s:1s,", ",1s:1s", "1s:3s,2s:3s", "2s:3s", "1s:20y,1m:40y", "1s:2s,1s:4s", "1s:4s,2s:4s", "1s:1s,2s:4s", "1s:2s,3s:6s", "2s:4s,3s:9s", "0s:0s", "1s:0s", "0s:1s"} {
+			for _, s := range []string{"", "s", "1", "1ss", "1sm", "+1s", "-1s", "1s:", ":1s", "1s:1s,", ",1s:1s", "1s:3s,2s:3s", "2s:3s", "1s:20y,1m:40y", "1s:2s,1s:4s", "1s:4s,2s:4s", "1s:1s,2s:4s", "1s:2s,3s:6s", "2s:4s,3s:9s", "0s:0s", "1s:0s", "0s:1s",
+				"2147483647s:2147483647s", "2147483646s:2147483646s", "2147483648s:2147483648s", "1073741823s:2147483646s", "1073741824s:2147483648s", "1s:2147483647s",
+				"1m:1h,1s:1m", "2s:4s,1s:2s", "1s:2s,4s:8s,2s:4s"} {
 				out = append(out, C19Case{Kind: "liststr", S: s}, C19Case{Kind: "durstr", S: s})
 			}
 			return out
